@@ -253,9 +253,8 @@ def run(ctx):
                 for ta in t["callee"].get("targs", []):
                     for clp in ta.get("closures", []):
                         cb = prog.by_key.get(strip_generics(clp))
-                        if cb and calls_to(cb[0], "future_deque_core::Slot::is_ready"):
-                            d0 = cb[0].unique_def(0) or (None, None, None, None)
-                            okp = True
+                        if cb:
+                            okp = _is_readiness_predicate(prog, cb[0])
                 ok = ok and okp
                 det += f"; predicate is the readiness test: {okp}"
             ctx.ob("R4.deque-order", inst, ok, bd.loc(t["span"]), det)
@@ -323,3 +322,28 @@ def run(ctx):
         eo = element_ops(prog, dr[0], lambda t: callee_key(t["callee"]).endswith("waker_meta::release_ref"))
         ok = bool(eo) and all(e["ok"] for e in eo)
         ctx.ob("R5.metadata-balance", "drop-visits-every-slot", ok, dr[0].loc(), f"release_ref in Drop: {[e['form'] + ': ' + e['detail'] for e in eo]}")
+
+
+def _is_readiness_predicate(prog, cb):
+    """`|slot| slot.is_ready()` or `|slot| matches!(slot, Slot::Ready { .. })`: evaluated on the closure with its private callee
+    inlined - true is produced exactly on the arm where the slot's discriminant is `Ready`."""
+    ib = prog.inlined_body(cb)
+    adt = prog.adts.get("future_deque::future_deque_core::Slot")
+    ridx = [i for i, v in enumerate(adt["variants"]) if v["name"] == "Ready"] if adt else []
+    if len(ridx) != 1:
+        return False
+    trues = []
+    falses = []
+    for blk in ib.blocks:
+        for st in blk.stmts:
+            if st["k"] == "assign" and st["rv"]["k"] == "use" and st["rv"]["op"].get("k") == "const" and st["rv"]["op"].get("ty") == "bool":
+                (trues if st["rv"]["op"].get("val") == 1 else falses).append(blk.idx)
+    if not trues:
+        return False
+    for tb in trues:
+        gs = [g for g in switch_guards(ib, tb) if g["src"].get("kind") == "discr"]
+        if not any(g["allowed"] == {ridx[0]} for g in gs):
+            return False
+    # the value returned is that boolean (through the inlined return)
+    r = Slice(ib).run({"k": "copy", "place": {"l": 0, "p": []}})
+    return 2 in r["args"] or any(2 in Slice(ib).run(ib.blocks[g["bb"]].term["discr"])["args"] for tb in trues for g in switch_guards(ib, tb) if g["src"].get("kind") == "discr")
